@@ -47,8 +47,8 @@ theorem C09_from_type_json_roundtrip (esc : Char → Bool) (c : Code) (o : Optio
   C09_schema_roundtrip esc fields (C09_from_type_in_domain c o how ty fields h)
 
 /-- **C09, traced schemas (`from_samples`).**  Every field of every schema `from_samples` returns lies in `SchemaOK`
-(every option, `allow_null_fields` included: since repo fix 5168cf7 every `Null` field is emitted nullable, see
-`C09_unseen_position_outside_pinned`). -/
+(every option, `allow_null_fields` included: every `Null` field is emitted nullable — repo fix 5168cf7; the code before it
+is `C09_unseen_position_outside_pinned`). -/
 theorem C09_from_samples_in_domain (o : Options) (how : OverwritesInDomain o)
     (xs : List SVal) (fields : List Field) (h : fromSamples .fixed o xs = .ok fields) : ∀ f ∈ fields, SchemaOK f := by
   simp only [fromSamples] at h
